@@ -103,7 +103,7 @@ CHECKS = {
              'length and finite.  The algebra without its bounds (AskaryanRelInd.tla: any integer factors and moves, any length) has '
              'Consistent as an inductive invariant, discharged with Apalache in every run.',
         note='Decides the exact relational clauses (1/R, |angle|, joint shift, whole-sample shift, finiteness, zero energy, on-cone '
-             'EM energy proportionality) and, on a 0.02 rad lattice only, largest-on-cone and monotone fall-off. Between lattice '
+             'EM energy proportionality, through the particle energy and through the EM fraction; the cone of the ice handed to the model, two indices) and, on a 0.02 rad lattice only, largest-on-cone and monotone fall-off (on a 0.005 rad lattice within 0.5 %). Between lattice '
              'points the fall-off clause is numerical and is not decided; the ARZ model violates it on a 0.005 rad lattice (open '
              'known finding D29). Grids are dyadic (2^-31 s, 2^-30 s) so that the arithmetic is exact; uniform ice n = 1.78.'),
     'C09': dict(
